@@ -101,7 +101,11 @@ def setup():
     each check function is walked with the batch runner and the verdict step stubbed out."""
     t0 = time.time()
     orig_rb, orig_fin, orig_we = D.run_batch, D.Outcome.finish, D.Outcome.write_evidence
-    D.run_batch = lambda *a, **k: D.Batch()
+    def _stub(exe, n, tier, seed, **k):
+        b = D.Batch()
+        b.exe, b.tier, b.label = exe, tier, k.get('label', 'setup@setup')
+        return b
+    D.run_batch = _stub
     D.Outcome.finish = lambda self, *a, **k: 0
     D.Outcome.write_evidence = lambda self, *a, **k: None
     try:
@@ -111,6 +115,8 @@ def setup():
                 CHECKS[name]('quick', D.DEFAULT_SEED)
             except B.BuildError as e:
                 print('setup: build problem while preparing %s (the check itself will report it): %s' % (name, str(e)[:300]))
+            except Exception as e:   # setup only pre-builds; it must never fail because of a stubbed-out step
+                print('setup: %s: ignored %s: %s' % (name, type(e).__name__, e))
             print('setup: %s prepared in %.1fs' % (name, time.time() - t1))
             sys.stdout.flush()
     finally:
@@ -408,7 +414,7 @@ def check_C12(tier, seed):
     o.add(D.run_batch(world_exe('bytes', 'asm', (4, 2, 4), 'san'), nb, tier, seed, label='bytes@asm-san', crash_prop='C12'))
     o.add(D.run_batch(world_exe('bytes', 'asm', (4, 2, 4), 'nostlsan'), nb, tier, seed, label='bytes@asm-nostlsan', crash_prop='C12'))
     o.add(D.run_batch(world_exe('cli', 'asm', (4, 2, 4), 'san'), ncli, tier, seed, env={'ASIM_HOSTILE': '1'}, label='cli@asm-san-hostile', crash_prop='C12', chunk=25))
-    o.extra['configurations'] = sorted({b.label.split('@')[1] for b in o.batches})
+    o.extra['configurations'] = sorted({b.label.split('@')[-1] for b in o.batches})
     o.extra['distinct_states_measure'] = 'union of the state tuples of the reused worlds'
     return o.finish()
 
